@@ -13,6 +13,7 @@ META = {
  "C18": ("first_step clamp folded into the default argument: an explicit first_step is no longer limited by max_step", "max_step given AND explicit first_step > max_step AND nothing else shortens step 0 (no finely spaced t_eval, controller accepts the step): first recorded step longer than max_step", ["C18"], "C18.max_step_respected"),
  "C16": ("re-initialisation of the FD wrapper keeps the old cached time (`__jac_time = 0.0` slipped inside the 'order is None' guard)", "FD jac(a, y) with a != 0, then unhook_jacobian_call() with nothing hooked, then jac at the same a: Jacobian of rhs(0.0, .) returned", ["C16"], "C16.fd_at_requested_time"),
  "C15": ("newtontrustregion measures the step size only when a trial step is accepted", "first Newton iteration rejects all three trial steps (poor start, near-singular Jacobian, rootless system): dxn stays 0 and the unchanged initial guess is returned with success=True; inherited by nonlinear_roots on both dispatch paths after MINPACK / hybrj fail", ["C15"], "C15.success_means_solution"),
+ "C04": ("non-adaptive override `timestep, redo_step = self.dTime, False` removed from inside the retry loop (looks like dead code)", "implicit non-adaptive method AND a stage-solve failure at the requested dt whose 0.8*dt retry converges: the controller's growth proposal (zero error estimate) is returned, later steps are ~2x the requested dt", ["C04"], "C04.never_longer"),
  "C05": ("retry loop guarded by signed comparison `timestep < current_timestep`", "adaptive RK integrating backward with a rejected step (initial dt comparable to the span): rejected step recorded silently, no retry, no error", ["C05"], "C05.global_error"),
 }
 for pid in sys.argv[1:]:
